@@ -21,7 +21,7 @@ OPTS = {'quick': dict(witnesses_per_case=6, budget_s=600), 'thorough': dict(witn
 
 
 def cases(tier, seed):
-    q = tier != 'thorough'
+    q = False          # the full bounds cost about a minute: quick and thorough coincide
     cs = []
     L = dict(lazy_where=True)
     for n in ((3, 4) if q else (3, 4, 5)):
